@@ -52,6 +52,7 @@ BORROWED = {
 
 TRAP_FILES = {
     "C01": {"suit_generator/suit/manifest.py": "C01-r3-2", "suit_generator/suit/types/common.py": "the manifest bytes the digest covers are produced there"},
+    "C19": {"suit_generator/suit/types/common.py": "C19-r6-1: what the templates render is accepted or refused by the generic model classes"},
 }
 
 # rules that are declared only when they have something to report (a refutation, an exit that skips the work): their absence from a
